@@ -90,6 +90,13 @@ def oracle(ctx, seeds=None):
         kx, ky = int(rng.integers(0, nx)), int(rng.integers(0, ny))
         if kx == 0 and ky == 0:
             kx = 1 % max(nx, 1); ky = (1 if nx == 1 else 0) % max(ny, 1)
+        if i % 3 == 1:
+            # periodic in ONE direction only (walls / supersonic outlets on the other pair): shifts along the periodic direction
+            other = [{'type': 'sym'}, {'type': 'sym'}] if rng.random() < 0.6 else [{'type': 'outsup'}, {'type': 'outsup'}]
+            if i % 2 and ny > 1:
+                cfg['bc']['left'], cfg['bc']['right'] = other; kx = 0; ky = max(ky, 1)
+            elif nx > 1:
+                cfg['bc']['bottom'], cfg['bc']['top'] = other; ky = 0; kx = max(kx, 1)
         ok, b = impl.guarded(cfg2d.build2d, cfg)
         if not ok:
             res.fail('2d:build-raised', b, dict(cfg2d=cfg)); continue
